@@ -332,6 +332,8 @@ END { %TAIL% }`, 4, "async"},
 	// the call must still return (goawk bounds its wait for the output copier)
 	{"system-grandchild-holds-pipe", `BEGIN { print "L" mark(); pre(); r = system("spawnhold:70000;mark:%MARK%;block"); post(); %TAIL% }`, 0, "async"},
 	{"pipe-close-grandchild-holds-pipe", `BEGIN { print "L" mark(); pre(); print "x" | "spawnhold:70000;mark:%MARK%;block"; r = close("spawnhold:70000;mark:%MARK%;block"); post(); %TAIL% }`, 0, "async"},
+	// the same with standard output being a file of the caller: only the error stream goes through a copier
+	{"system-grandchild-holds-stderr", `BEGIN { print "L" mark(); pre(); r = system("spawnhold:70000;mark:%MARK%;block"); post(); %TAIL% }`, 0, "async"},
 	{"two-children", `BEGIN { print "L" mark(); pre(); print "x" | "%CMD%"; "block" | getline y; post(); %TAIL% }`, 0, "async"},
 }
 
